@@ -139,14 +139,28 @@ def load_corpus(pid):
     return out
 
 
-def shrink_script(line, still_fails, max_rounds=60):
-    """greedy one-op-at-a-time reduction of a `K head ; op ; op …` script; still_fails(list of lines) -> list of bool"""
+def shrink_script(line, still_fails, max_rounds=60, budget_s=30.0):
+    """reduction of a `K head ; op ; op …` script: first whole blocks of operations (halving the block size), then one
+    operation at a time; still_fails(list of lines) -> list of bool.  Bounded in wall-clock time (long scripts - canvases
+    hundreds of cells wide - would otherwise cost minutes per case): the result is then simply less small."""
     if " ; " not in line:
         return line
+    t0 = time.time()
     parts = line.split(" ; ")
     head, ops = parts[0], parts[1:]
+    size = len(ops) // 2
+    while size >= 2 and time.time() - t0 < budget_s:
+        starts = list(range(0, len(ops), size))
+        cands = [" ; ".join([head] + ops[:i] + ops[i + size:]) for i in starts]
+        res = still_fails(cands)
+        hit = next((k for k, r in enumerate(res) if r), None)
+        if hit is None:
+            size //= 2
+        else:
+            ops = ops[:starts[hit]] + ops[starts[hit] + size:]
+            size = min(size, max(2, len(ops) // 2))
     for _ in range(max_rounds):
-        if len(ops) <= 1:
+        if len(ops) <= 1 or time.time() - t0 > budget_s or len(ops) > 150:
             break
         cands = [" ; ".join([head] + ops[:i] + ops[i + 1:]) for i in range(len(ops))]
         res = still_fails(cands)
